@@ -79,10 +79,25 @@ func (l repoLayout) isLeaf(e string) bool { return len(l.children(e)) == 0 }
 
 var repoFeature = map[string]string{"r": "static", "s": "relative", "l": "manip"}
 
+const repoProfilePath = "profiles/shared.yaml"
+
+// the one shared profile: its content value p shows in every certificate that uses it through a custom extension
+func repoProfileText(p int) []byte {
+	m := map[string]any{"version": 1, "name": "shared",
+		"extensions": []any{map[string]any{"custom": map[string]any{"oid": "1.3.6.1.4.1.99999.2", "raw": fmt.Sprintf("!binary:%s", b64([]byte{byte(p)}))}}}}
+	b, _ := json.MarshalIndent(m, "", "  ")
+	return b
+}
+
+func usesProfile(e string) bool { return e == "l" }
+
 func (l repoLayout) configText(e string, c int) []byte {
 	m := map[string]any{
 		"version": 1,
 		"subject": fmt.Sprintf("CN=%s v%d, O=Repo Model, C=DE", e, c),
+	}
+	if usesProfile(e) {
+		m["profile"] = "shared"
 	}
 	if p := l.Parent[e]; p != "" {
 		m["issuer"] = p
@@ -137,17 +152,21 @@ func b64(b []byte) string {
 // ---------------------------------------------------------------------------------- abstract state
 
 type absArt struct {
-	Exists bool   `json:"exists"`
-	Hash   int    `json:"hash"`
-	Cert   bool   `json:"cert"`
-	Certc  int    `json:"certc"`
-	Issc   int    `json:"issc"`
-	Key    string `json:"key"`
-	Sigok  bool   `json:"sigok"`
+	Exists  bool   `json:"exists"`
+	Hash    int    `json:"hash"`
+	Hashp   int    `json:"hashp"`
+	Cert    bool   `json:"cert"`
+	Certc   int    `json:"certc"`
+	Certp   int    `json:"certp"`
+	Issc    int    `json:"issc"`
+	Key     string `json:"key"`
+	Sigok   bool   `json:"sigok"`
+	Expired bool   `json:"expired"`
 }
 
 type absState struct {
 	Cfgc     map[string]int    `json:"cfgc"`
+	Prof     int               `json:"prof"`
 	CfgNewer map[string]bool   `json:"cfgNewer"`
 	IssNewer map[string]bool   `json:"issNewer"`
 	Art      map[string]absArt `json:"art"`
@@ -182,6 +201,7 @@ type repoWorld struct {
 	l    repoLayout
 	fs   *simfs.FS
 	cfgc map[string]int
+	prof int
 }
 
 // hash text -> content value, learned from what was seen being written; must stay a function both ways
@@ -191,8 +211,8 @@ type hashTable struct {
 	Clash  []string
 }
 
-func (h *hashTable) learn(e string, c int, text string) {
-	ec := fmt.Sprintf("%s/%d", e, c)
+func (h *hashTable) learn(e string, c int, p int, text string) {
+	ec := fmt.Sprintf("%s/%d/%d", e, c, p)
 	if old, ok := h.byEC[ec]; ok && old != text {
 		h.Clash = append(h.Clash, fmt.Sprintf("same configuration %s hashed to %s and %s", ec, old, text))
 	}
@@ -221,7 +241,7 @@ func dnContent(raw []byte) (int, bool) {
 }
 
 func (w *repoWorld) project(ht *hashTable) (*absState, map[string]*artFacts) {
-	s := &absState{Cfgc: map[string]int{}, CfgNewer: map[string]bool{}, IssNewer: map[string]bool{}, Art: map[string]absArt{}, Flags: []string{}}
+	s := &absState{Prof: w.prof, Cfgc: map[string]int{}, CfgNewer: map[string]bool{}, IssNewer: map[string]bool{}, Art: map[string]absArt{}, Flags: []string{}}
 	facts := map[string]*artFacts{}
 	certs := map[string]*project.Cert{}
 	pems := map[string]project.PemFile{}
@@ -237,7 +257,7 @@ func (w *repoWorld) project(ht *hashTable) (*absState, map[string]*artFacts) {
 			pems[e] = p
 			if p.HasHash {
 				if ec, known := ht.byText[p.HashText]; known && strings.HasPrefix(ec, e+"/") {
-					fmt.Sscanf(ec[len(e)+1:], "%d", &a.Hash)
+					fmt.Sscanf(ec[len(e)+1:], "%d/%d", &a.Hash, &a.Hashp)
 				} else {
 					fa.HashUnknown = true
 					a.Hash = 98
@@ -252,6 +272,12 @@ func (w *repoWorld) project(ht *hashTable) (*absState, map[string]*artFacts) {
 					a.Cert = true
 					a.Certc, _ = dnContent(c.SubjectRaw)
 					a.Issc, _ = dnContent(c.IssuerRaw)
+					a.Expired = c.NotAfter.Before(time.Now())
+					for _, x := range c.Exts {
+						if x.OID == "1.3.6.1.4.1.99999.2" && len(x.Value) == 1 {
+							a.Certp = int(x.Value[0])
+						}
+					}
 					if pk, err := c.PubKey(); err == nil {
 						fa.CertKeyID = pk.ID()
 					}
@@ -448,9 +474,10 @@ func signRun(fsys filesystem.Filesystem, strat db.UpdateStrategy, aliasToEnt fun
 }
 
 // cut offsets for the three cut classes, chosen inside the file content:
-//   empty    - no complete hash line and no complete block survives
-//   hashonly - the hash line (if the file has one) survives, no complete block
-//   nokey    - hash line and certificate block survive, the block after it does not
+//
+//	empty    - no complete hash line and no complete block survives
+//	hashonly - the hash line (if the file has one) survives, no complete block
+//	nokey    - hash line and certificate block survive, the block after it does not
 func cutOffset(content []byte, class string, rng *util.Rng) int {
 	n := len(content)
 	hashEnd := 0
@@ -565,7 +592,7 @@ func (x *repoExec) learnHashes(w *repoWorld, planned []string) {
 		if f, ok := w.fs.Files[x.l.artPath(e)]; ok {
 			p := project.ParsePem(f.Data)
 			if p.HasHash && p.Cert != nil { // a complete write of this run
-				x.ht.learn(e, w.cfgc[e], p.HashText)
+				x.ht.learn(e, w.cfgc[e], profOf(w, e), p.HashText)
 			}
 		}
 	}
@@ -573,15 +600,22 @@ func (x *repoExec) learnHashes(w *repoWorld, planned []string) {
 		p := project.ParsePem(w.fs.FaultContent)
 		for _, e := range x.l.Ents {
 			if x.l.artPath(e) == w.fs.FaultPath && p.HasHash {
-				x.ht.learn(e, w.cfgc[e], p.HashText)
+				x.ht.learn(e, w.cfgc[e], profOf(w, e), p.HashText)
 			}
 		}
 	}
 }
 
+func profOf(w *repoWorld, e string) int {
+	if usesProfile(e) {
+		return w.prof
+	}
+	return 0
+}
+
 // perform one action on a copy of the world; returns the resulting world and the logged line
 func (x *repoExec) perform(w *repoWorld, pre *absState, preFacts map[string]*artFacts, a repoAct, depth int) (*repoWorld, *repoLine) {
-	nw := &repoWorld{l: w.l, fs: w.fs.Clone(), cfgc: map[string]int{}}
+	nw := &repoWorld{l: w.l, fs: w.fs.Clone(), cfgc: map[string]int{}, prof: w.prof}
 	for k, v := range w.cfgc {
 		nw.cfgc[k] = v
 	}
@@ -616,6 +650,21 @@ func (x *repoExec) perform(w *repoWorld, pre *absState, preFacts map[string]*art
 		nw.fs.Put(art, foreignCertAndKey(fmt.Sprintf("%s v%d", a.E, nw.cfgc[a.E])))
 	case "MakeCsr":
 		nw.fs.Put(art, foreignCsr(fmt.Sprintf("%s v%d", a.E, nw.cfgc[a.E])))
+	case "EditProfile":
+		nw.prof = a.C
+		nw.fs.Put(repoProfilePath, repoProfileText(a.C))
+	case "Expire":
+		// time passes: the same certificate, but its validity has ended; the file keeps its modification time
+		old := nw.fs.Files[art]
+		issuerArt := art
+		if p := x.l.Parent[a.E]; p != "" {
+			issuerArt = x.l.artPath(p)
+		}
+		if exp := expiredTwin(old.Data, nw.fs.Files[issuerArt].Data); exp != nil {
+			nw.fs.Files[art] = &simfs.File{Data: exp, MTick: old.MTick}
+		} else {
+			obs.Err = "harness could not build the expired twin"
+		}
 	case "Run":
 		x.runs++
 		before := nw.fs.Clone()
@@ -769,6 +818,19 @@ func (x *repoExec) envActions(s *absState, enabled map[string]bool, contents int
 		if enabled["MakeCsr"] && x.l.isLeaf(e) && x.l.Parent[e] != "" {
 			out = append(out, repoAct{Name: "MakeCsr", E: e})
 		}
+		if enabled["Expire"] && a.Cert && !a.Expired && a.Sigok && a.Key == "key" {
+			p := x.l.Parent[e]
+			if (p == "" && a.Issc == a.Certc) || (p != "" && s.Art[p].Cert && s.Art[p].Key == "key" && a.Issc == s.Art[p].Certc) {
+				out = append(out, repoAct{Name: "Expire", E: e})
+			}
+		}
+	}
+	if enabled["EditProfile"] {
+		for c := 0; c < contents; c++ {
+			if c != s.Prof {
+				out = append(out, repoAct{Name: "EditProfile", C: c})
+			}
+		}
 	}
 	return out
 }
@@ -829,6 +891,7 @@ func cmdRepo(args []string) int {
 	}
 
 	world := &repoWorld{l: l, fs: simfs.New(), cfgc: map[string]int{}}
+	world.fs.Put(repoProfilePath, repoProfileText(0))
 	for _, e := range l.Ents {
 		world.cfgc[e] = 0
 		world.fs.Put(l.Path[e], l.configText(e, 0))
@@ -870,7 +933,7 @@ func cmdRepo(args []string) int {
 
 	if *randomWalks > 0 {
 		for i := 0; i < *randomWalks; i++ {
-			wd := &repoWorld{l: l, fs: world.fs.Clone(), cfgc: map[string]int{"r": 0, "s": 0, "l": 0}}
+			wd := &repoWorld{l: l, fs: world.fs.Clone(), cfgc: map[string]int{"r": 0, "s": 0, "l": 0}, prof: 0}
 			st, facts := wd.project(x.ht)
 			st.Last = "none"
 			for step := 0; step < *walkLen; step++ {
@@ -951,4 +1014,46 @@ func cmdRepo(args []string) int {
 		"panics": x.panics, "max_env": *maxEnv, "deepest": deepest, "actions": x.actions, "hash_clashes": len(x.ht.Clash), "flagsets": len(fsets)})
 	os.WriteFile(*statsOut, sb, 0644)
 	return 0
+}
+
+// expiredTwin rebuilds the certificate in `own` (an artifact file) with a validity that ended in 2001, signed by the
+// key in `issuerFile` (the issuer's artifact; the entity's own file for a root): same subject, issuer, serial, public key
+// and extensions. The rest of the file (hash line, key block) is kept.
+func expiredTwin(own, issuerFile []byte) []byte {
+	p := project.ParsePem(own)
+	ip := project.ParsePem(issuerFile)
+	if p.Cert == nil || ip.Key == nil || ip.Cert == nil {
+		return nil
+	}
+	c, err := x509.ParseCertificate(p.Cert)
+	if err != nil {
+		return nil
+	}
+	ic, err := x509.ParseCertificate(ip.Cert)
+	if err != nil {
+		return nil
+	}
+	ikey, err := x509.ParsePKCS8PrivateKey(ip.Key)
+	if err != nil {
+		return nil
+	}
+	tmpl := &x509.Certificate{SerialNumber: c.SerialNumber, RawSubject: c.RawSubject,
+		NotBefore: time.Date(2000, 1, 1, 0, 0, 0, 0, time.UTC), NotAfter: time.Date(2001, 1, 1, 0, 0, 0, 0, time.UTC),
+		ExtraExtensions: c.Extensions, SignatureAlgorithm: c.SignatureAlgorithm}
+	der, err := x509.CreateCertificate(rand.Reader, tmpl, ic, c.PublicKey, ikey)
+	if err != nil {
+		return nil
+	}
+	var bb bytes.Buffer
+	if p.HasHash {
+		bb.WriteString(project.HashPrefix + p.HashText + "\n")
+	}
+	pem.Encode(&bb, &pem.Block{Type: "CERTIFICATE", Bytes: der})
+	if p.Key != nil {
+		pem.Encode(&bb, &pem.Block{Type: "PRIVATE KEY", Bytes: p.Key})
+	}
+	if p.Csr != nil && p.Key == nil {
+		pem.Encode(&bb, &pem.Block{Type: "CERTIFICATE REQUEST", Bytes: p.Csr})
+	}
+	return bb.Bytes()
 }
